@@ -12,12 +12,39 @@ Local Open Scope N_scope.
 Lemma convert_all_single : forall e, convert_all [e] = match convert e with Ok a => Ok (a ++ []) | o => o end.
 Proof. intros e. cbn [convert_all]. destruct (convert e); reflexivity. Qed.
 
+Lemma walk_all_single : forall e, walk_all [e] = match walk e with Ok a => Ok (a ++ []) | o => o end.
+Proof. intros e. cbn [walk_all]. destruct (walk e); reflexivity. Qed.
+
+(* an accepted declaration passed the reserved-name checks of the walker and of visitOneofNode *)
+Theorem compile_inv_reserved : forall e cs, compile e = Ok cs ->
+  walker_reserved_free e = true /\ oneof_type_free e = true.
+Proof.
+  intros e cs H. unfold compile, compile_file in H.
+  destruct (existsb _ [e]); [discriminate|].
+  rewrite walk_all_single in H. unfold walk in H.
+  destruct (walker_reserved_free e); [|discriminate]. split; [reflexivity|].
+  destruct (expand e); try discriminate. cbn [forallb] in H.
+  destruct (oneof_type_free e); [reflexivity|discriminate].
+Qed.
+
+Theorem compile_inv_enums : forall e cs, compile e = Ok cs -> decl_enums_ok e = true.
+Proof.
+  intros e cs H. unfold compile, compile_file in H.
+  destruct (existsb _ [e]); [discriminate|].
+  destruct (walk_all [e]); try discriminate. cbn [forallb] in H.
+  destruct (oneof_type_free e); [|discriminate]. cbn [andb] in H.
+  destruct (decl_enums_ok e); [reflexivity|discriminate].
+Qed.
+
 Theorem compile_inv : forall e cs, compile e = Ok cs ->
   e_status e <> [] /\ convert e = Ok cs /\ link_ok cs = true
   /\ exists fl, default_filters e (requested_filters e) = Some fl /\ cs = expand_with e fl /\ closed cs = true.
 Proof.
   intros e cs H. unfold compile, compile_file in H. cbn [existsb] in H.
   destruct (e_status e) as [|s0 sr] eqn:Es; [discriminate|]. cbn [is_nil orb] in H.
+  destruct (walk_all [e]) as [w| | |]; try discriminate. clear w.
+  destruct (forallb oneof_type_free [e]); [|discriminate].
+  destruct (forallb decl_enums_ok [e]); [|discriminate].
   rewrite convert_all_single in H. destruct (convert e) as [a| | |] eqn:Ec; try discriminate.
   rewrite app_nil_r in H. destruct (link_ok a) eqn:El; [|discriminate]. inversion H; subst a.
   destruct (compile_ok_inv e cs Ec) as [Hx Hcl].
@@ -103,16 +130,19 @@ Proof.
   - cbn [number_from nth_error]. rewrite (IH (N.succ i) p k s H). f_equal. f_equal. lia.
 Qed.
 
+Lemma explicit_zero_eq : forall p s, is_explicit_zero p s = sp_explicit_zero p s.
+Proof. reflexivity. Qed.
+
 Lemma status_values_shape : forall p l n0,
-  exists z, status_values_n p l n0 = (z, 0) :: number_from 1 p (declared_after_zero_n l n0)
+  exists z, status_values_n p l n0 = (z, 0) :: number_from 1 p (declared_after_zero_n p l n0)
             /\ has_suffix (bs "UNSPECIFIED") z = true /\ has_prefix p z = true.
 Proof.
   intros p [|s r] n0; cbn [status_values_n declared_after_zero_n].
   - eexists. split; [reflexivity|]. split; [apply has_suffix_self|apply has_prefix_app].
-  - destruct (has_suffix (bs "UNSPECIFIED") s) eqn:E; cbn [andb].
+  - change (sp_explicit_zero p s) with (is_explicit_zero p s). destruct (is_explicit_zero p s) eqn:E; cbn [andb].
     + destruct (n0 =? 0).
       * eexists. split; [reflexivity|]. split; [|apply svn_prefix].
-        unfold status_value_name. destruct (has_prefix p s); [exact E|now apply has_suffix_app].
+        unfold is_explicit_zero in E. apply bytes_eqb_eq in E. rewrite E. apply has_suffix_self.
       * eexists. split; [reflexivity|]. split; [apply has_suffix_self|apply has_prefix_app].
     + eexists. split; [reflexivity|]. split; [apply has_suffix_self|apply has_prefix_app].
 Qed.
@@ -855,31 +885,33 @@ Proof.
 Qed.
 
 (* ---- the full statement, its refutation, and what holds -------------------------------------------------------- *)
-Definition C17_full_statement_def : Prop :=
+(* the reading "ANY name": every declaration in the quantifier compiles.  False: the compiler reserves
+   the names the expansion uses itself and rejects them by a positioned diagnostic (fix a5547b9) *)
+Definition C17_strict_statement_def : Prop :=
   forall e, in_quantifier e = true -> exists cs, compile e = Ok cs /\ C17_spec e cs.
 
 Definition mk_min (key : string) : entity :=
   mkE (bs "foo.v1") (bs "Foo") [] [mkK (mkU (bs key) (KKey true None None) false false) false]
       [] [bs "ACTIVE"] [] [] [] None [].
 
-(* a primary key named page: inside the quantifier, not linkable *)
-Theorem reserved_key_refuted :
-  in_quantifier (mk_min "page") = true /\ compile (mk_min "page") = Err "symbol already defined"
-  /\ in_quantifier (mk_min "query") = true /\ compile (mk_min "query") = Err "symbol already defined".
+(* a primary key named page: inside the quantifier, rejected by name *)
+Theorem reserved_key_rejected :
+  in_quantifier (mk_min "page") = true /\ compile (mk_min "page") = Err "reserved name"
+  /\ in_quantifier (mk_min "query") = true /\ compile (mk_min "query") = Err "reserved name".
 Proof. repeat split; vm_compute; reflexivity. Qed.
 
 Definition upsert_sample : entity :=
   mkE (bs "foo.v1") (bs "Foo") [] [mkK (mkU (bs "fooId") (KKey true None None) false false) false]
       [] [bs "ACTIVE"] [] [] [mkS [] [mkU (bs "upsert") (KScalar 9 (bs "string")) false false]] None [].
-Theorem summary_upsert_refuted :
-  in_quantifier upsert_sample = true /\ compile upsert_sample = Err "symbol already defined".
+Theorem summary_upsert_rejected :
+  in_quantifier upsert_sample = true /\ compile upsert_sample = Err "reserved name".
 Proof. split; vm_compute; reflexivity. Qed.
 
 Definition type_event_sample : entity :=
   mkE (bs "foo.v1") (bs "Foo") [] [mkK (mkU (bs "fooId") (KKey true None None) false false) false]
       [] [bs "ACTIVE"] [mkEv (bs "Type") []] [] [] None [].
-Theorem event_type_refuted :
-  in_quantifier type_event_sample = true /\ compile type_event_sample = Err "symbol already defined".
+Theorem event_type_rejected :
+  in_quantifier type_event_sample = true /\ compile type_event_sample = Err "reserved name".
 Proof. split; vm_compute; reflexivity. Qed.
 
 (* ---- names that are NOT reserved: inside the quantifier, accepted, every clause holds ---------------------
@@ -919,20 +951,19 @@ Lemma optional_array_in_scope :
   /\ exists cs, compile optional_array_sample = Ok cs /\ client_accepts cs = true.
 Proof. split; [vm_compute; reflexivity|]. split; [vm_compute; reflexivity|]. eexists. split; vm_compute; reflexivity. Qed.
 
-(* two statuses that differ only in case: linked by the compiler (C17 asks for no more); that
-   protodesc.NewFiles then rejects the package is C16's clause - the model predicts it for the tie *)
+(* two statuses that differ only in case are ONE protobuf name twice: since fix 4fb405b the compiler reports
+   the later one (a positioned conversion error); outside the quantifier like any repeated name *)
 Definition status_case_sample : entity :=
   mkE (bs "foo.v1") (bs "Foo") [] [mkK (mkU (bs "fooId") (KKey true None None) false false) false]
       [] [bs "Active"; bs "ACTIVE"] [] [] [] None [].
-Lemma status_case_in_scope :
-  in_quantifier status_case_sample = true /\ reserved_free status_case_sample = true
-  /\ exists cs, compile status_case_sample = Ok cs /\ client_accepts cs = false.
-Proof. split; [vm_compute; reflexivity|]. split; [vm_compute; reflexivity|]. eexists. split; vm_compute; reflexivity. Qed.
+Lemma status_case_out_of_scope :
+  in_quantifier status_case_sample = false /\ compile status_case_sample = Err "enum option conflict".
+Proof. split; vm_compute; reflexivity. Qed.
 
-Theorem full_refuted : ~ C17_full_statement_def.
+Theorem strict_reading_refuted : ~ C17_strict_statement_def.
 Proof.
   intros H. destruct (H (mk_min "page")) as [cs [Hc _]]; [vm_compute; reflexivity|].
-  destruct reserved_key_refuted as [_ [E _]]. rewrite E in Hc. discriminate.
+  destruct reserved_key_rejected as [_ [E _]]. rewrite E in Hc. discriminate.
 Qed.
 
 (* everything the statement promises about the OUTPUT holds whenever the compiler accepts; the
